@@ -60,6 +60,17 @@ def opsShapes (op : String) : Option (Rd String) :=
   | "shape.path" => some do
       let s : Shp K ← shp; let tol : K ← num
       return eEls (s.path tol)
+  | "shape.affine" => some do
+      -- outline of the image shape | image of the outline  (circle / ellipse / arc)
+      let a : Affine K ← affine; let s : Shp K ← shp; let tol : K ← num
+      let img : Option (List (PathEl K)) := match s with
+        | .circle c => some ((a.mul_Ellipse (Ellipse.new c.center ⟨c.radius, c.radius⟩ (0 : K))).path_elements tol)
+        | .ellipse el => some ((a.mul_Ellipse el).path_elements tol)
+        | .arc arc => some ((a.mul_Arc arc).path_elements tol)
+        | _ => none
+      match img with
+      | none => failure
+      | some img => return s!"{eEls img} | {eEls ((s.path tol).map fun el => a * el)}"
   | "shape.query" => some do
       let s : Shp K ← shp; let n ← nat; let pts : List (Point K) ← rdPtsN n
       let a := match s.area? with | some a => e a | none => "-"
